@@ -143,13 +143,68 @@ func c10Ladders(c *Ctx, p *Prog) {
 			c.Undecided("C10/R1", key, site, fmt.Sprintf("builder with factor base %d is neither decimal nor binary", base))
 			continue
 		}
-		ok := strings.Join(list, ",") == strings.Join(ld.want, ",") && start == ld.start && step == ld.step
+		// the exponent each prefix gets: evaluate the exponent handed to math.Pow for iteration k, with every
+		// loop-carried integer at its k-th value (so a running counter and a function of the index are the same thing)
 		got := map[string]int64{}
-		for i, s := range list {
-			got[s] = start + int64(i)*step
+		evalOK := true
+		var powExp ssa.Value
+		for _, call := range callsIn(fn, "math", "", "Pow") {
+			powExp = call.Common().Args[1]
 		}
-		c.Check(ok, "C10/R1", key, site, fmt.Sprintf("%s prefixes %q from exponent %d in steps of %d: %v", ld.name, list, start, step, got),
-			fmt.Sprintf("the %s ladder is %q starting at %d with step %d (so %v); documented: %q from %d step %d, the empty prefix at exponent 0", ld.name, list, start, step, got, ld.want, ld.start, ld.step))
+		for k, s := range list {
+			env := map[ssa.Value]int64{}
+			for _, lp := range naturalLoops(fn) {
+				for _, in := range lp.Header.Instrs {
+					phi, ok := in.(*ssa.Phi)
+					if !ok || !isInteger(phi.Type()) {
+						continue
+					}
+					var init, stp int64
+					okR := false
+					for i, e := range phi.Edges {
+						if lp.Blocks[lp.Header.Preds[i]] {
+							if bo, ok := e.(*ssa.BinOp); ok && bo.X == phi {
+								if kk, ok := constInt(bo.Y); ok {
+									okR = true
+									if bo.Op == token.SUB {
+										stp = -kk
+									} else if bo.Op == token.ADD {
+										stp = kk
+									} else {
+										okR = false
+									}
+								}
+							}
+						} else if kk, ok := constInt(e); ok {
+							init = kk
+						}
+					}
+					if okR {
+						env[phi] = init + int64(k)*stp
+					}
+				}
+			}
+			if powExp == nil {
+				evalOK = false
+				break
+			}
+			v, ok := evalInt(stripFloatConv(powExp), env)
+			if !ok {
+				evalOK = false
+				break
+			}
+			got[s] = v
+		}
+		_ = start
+		_ = step
+		ok := evalOK && strings.Join(list, ",") == strings.Join(ld.want, ",")
+		for i, s := range ld.want {
+			if ok && got[s] != ld.start+int64(i)*ld.step {
+				ok = false
+			}
+		}
+		c.Check(ok, "C10/R1", key, site, fmt.Sprintf("%s prefixes %q get the exponents %v", ld.name, list, got),
+			fmt.Sprintf("the %s ladder is %q with exponents %v (evaluable: %v); documented: %q from %d step %d, the empty prefix at exponent 0", ld.name, list, got, evalOK, ld.want, ld.start, ld.step))
 		// thresholds: format literals and the fields they reach
 		c10Thresholds(c, p, fn, ld.name)
 	}
@@ -309,51 +364,78 @@ func c10Select(c *Ctx, p *Prog) {
 	want := map[string]int64{"t100": 1, "t10": 2, "t1": 3}
 	seen := map[string]bool{}
 	order := []string{}
+	// the threshold comparisons may sit in CommonScale or in a helper of the package it calls
+	thrFns := []*ssa.Function{fn}
 	eachInstr(fn, func(_ *ssa.BasicBlock, in ssa.Instruction) {
-		bo, ok := in.(*ssa.BinOp)
-		if !ok {
-			return
-		}
-		f, _ := loadOfField(bo.Y)
-		g, _ := loadOfField(bo.X)
-		var fld *types.Var
-		inclusive := false
-		switch {
-		case f != nil && want[f.Name()] != 0:
-			fld = f
-			inclusive = bo.Op == token.GEQ // min >= t
-			if bo.Op == token.GTR {
-				inclusive = false
+		if call, ok := in.(*ssa.Call); ok {
+			if sc := call.Call.StaticCallee(); sc != nil && sc.Blocks != nil && sc.Pkg == fn.Pkg {
+				thrFns = append(thrFns, sc)
 			}
-		case g != nil && want[g.Name()] != 0:
-			fld = g
-			inclusive = bo.Op == token.LEQ // t <= min
-		default:
-			return
 		}
-		if bo.Op != token.GEQ && bo.Op != token.GTR && bo.Op != token.LEQ && bo.Op != token.LSS {
-			return
+	})
+	fieldOf := func(v ssa.Value) *types.Var {
+		if f, _ := loadOfField(v); f != nil {
+			return f
 		}
-		seen[fld.Name()] = true
-		order = append(order, fld.Name())
-		// the precision returned on the true edge
-		var prec int64 = -99
-		for _, r := range *bo.Referrers() {
-			if ifi, ok := r.(*ssa.If); ok {
-				tb := ifi.Block().Succs[0]
-				for _, in2 := range tb.Instrs {
-					if st, ok := in2.(*ssa.Store); ok {
-						if pf, _ := fieldOfAddr(st.Addr); pf == precF {
-							prec, _ = constInt(st.Val)
+		if fv, ok := v.(*ssa.Field); ok {
+			f, _ := fieldOfVal(fv)
+			return f
+		}
+		return nil
+	}
+	for _, tf := range thrFns {
+		eachInstr(tf, func(_ *ssa.BasicBlock, in ssa.Instruction) {
+			bo, ok := in.(*ssa.BinOp)
+			if !ok {
+				return
+			}
+			f := fieldOf(bo.Y)
+			g := fieldOf(bo.X)
+			var fld *types.Var
+			inclusive := false
+			switch {
+			case f != nil && want[f.Name()] != 0:
+				fld = f
+				inclusive = bo.Op == token.GEQ // min >= t
+				if bo.Op == token.GTR {
+					inclusive = false
+				}
+			case g != nil && want[g.Name()] != 0:
+				fld = g
+				inclusive = bo.Op == token.LEQ // t <= min
+			default:
+				return
+			}
+			if bo.Op != token.GEQ && bo.Op != token.GTR && bo.Op != token.LEQ && bo.Op != token.LSS {
+				return
+			}
+			seen[fld.Name()] = true
+			order = append(order, fld.Name())
+			// the precision returned on the true edge
+			var prec int64 = -99
+			for _, r := range *bo.Referrers() {
+				if ifi, ok := r.(*ssa.If); ok {
+					tb := ifi.Block().Succs[0]
+					for _, in2 := range tb.Instrs {
+						if st, ok := in2.(*ssa.Store); ok {
+							if pf, _ := fieldOfAddr(st.Addr); pf == precF {
+								prec, _ = constInt(st.Val)
+							}
+						}
+						// a helper returns the precision instead of storing it
+						if ret, ok := in2.(*ssa.Return); ok && tf != fn && len(ret.Results) >= 1 {
+							if k, ok := constInt(retVal(ret, 0)); ok {
+								prec = k
+							}
 						}
 					}
 				}
 			}
-		}
-		key := "CommonScale:" + fld.Name()
-		c.Check(inclusive && prec == want[fld.Name()], R, key, p.pos(bo.Pos()), fmt.Sprintf("min >= %s selects %d decimals", fld.Name(), prec),
-			fmt.Sprintf("threshold %s selects %d decimals through a %s comparison; documented: inclusive comparison selecting %d (the threshold is the least value that rounds up, so it belongs to the coarser precision; otherwise 999.95 prints as 1000.0 or 0.9999k)", fld.Name(), prec, bo.Op, want[fld.Name()]))
-	})
+			key := "CommonScale:" + fld.Name()
+			c.Check(inclusive && prec == want[fld.Name()], R, key, p.pos(bo.Pos()), fmt.Sprintf("min >= %s selects %d decimals", fld.Name(), prec),
+				fmt.Sprintf("threshold %s selects %d decimals through a %s comparison; documented: inclusive comparison selecting %d (the threshold is the least value that rounds up, so it belongs to the coarser precision; otherwise 999.95 prints as 1000.0 or 0.9999k)", fld.Name(), prec, bo.Op, want[fld.Name()]))
+		})
+	}
 	for k := range want {
 		if !seen[k] {
 			c.Bad(R, "CommonScale:"+k, site, "threshold "+k+" is never consulted")
@@ -471,29 +553,32 @@ func c10Format(c *Ctx, p *Prog) {
 	site := p.pos(fn.Pos())
 	factorF := p.Field("benchunit", "Scaler", "Factor")
 	precF := p.Field("benchunit", "Scaler", "Prec")
+	// accept strconv.AppendFloat(buf, ...) or strconv.FormatFloat(...): the (value, format, precision, bit size)
+	// arguments are the last four either way
 	nIf := 0
 	eachInstr(fn, func(_ *ssa.BasicBlock, in ssa.Instruction) {
 		if _, ok := in.(*ssa.If); ok {
 			nIf++
 		}
 	})
-	calls := callsIn(fn, "strconv", "", "AppendFloat")
+	calls := append(callsIn(fn, "strconv", "", "AppendFloat"), callsIn(fn, "strconv", "", "FormatFloat")...)
 	ok := nIf == 0 && len(calls) == 1
-	detail := fmt.Sprintf("%d branches, %d AppendFloat calls", nIf, len(calls))
+	detail := fmt.Sprintf("%d branches, %d float formatting calls", nIf, len(calls))
 	if ok {
 		cc := calls[0].Common()
-		q, isQ := cc.Args[1].(*ssa.BinOp)
+		a := cc.Args[len(cc.Args)-4:]
+		q, isQ := a[0].(*ssa.BinOp)
 		f1, _ := func() (*types.Var, ssa.Value) {
 			if isQ {
 				return loadOfField(q.Y)
 			}
 			return nil, nil
 		}()
-		fmtK, _ := constInt(cc.Args[2])
-		pf, _ := loadOfField(cc.Args[3])
-		bits, _ := constInt(cc.Args[4])
+		fmtK, _ := constInt(a[1])
+		pf, _ := loadOfField(a[2])
+		bits, _ := constInt(a[3])
 		ok = isQ && q.Op == token.QUO && q.X == fn.Params[1] && f1 == factorF && fmtK == 'f' && pf == precF && bits == 64
-		detail = fmt.Sprintf("AppendFloat(val/Factor: %v, 'f': %v, Prec: %v, 64: %v)", isQ && f1 == factorF, fmtK == 'f', pf == precF, bits == 64)
+		detail = fmt.Sprintf("format(val/Factor: %v, 'f': %v, Prec: %v, 64: %v)", isQ && f1 == factorF, fmtK == 'f', pf == precF, bits == 64)
 	}
 	c.Check(ok, R, "Scaler.Format", site, "one path: AppendFloat(buf, val/Factor, 'f', Prec, 64) + prefix", "Scaler.Format is not the single call AppendFloat(buf, val/Factor, 'f', Prec, 64): "+detail+" (a special-cased path, e.g. through integers, prints some values differently from the shortest round-trip decimal)")
 	// NoOpScaler
@@ -592,4 +677,15 @@ func c10Class(c *Ctx, p *Prog) {
 		c.Check(isBin == shouldBin, R, key, site, fmt.Sprintf("binary=%v", isBin), fmt.Sprintf("returns binary=%v; a unit is binary exactly when a byte token appears in the numerator (expected %v)", isBin, shouldBin))
 	}
 	c.Floor(R, "ClassOf token cases", n, 4)
+}
+
+// stripFloatConv peels int->float conversions off an exponent operand.
+func stripFloatConv(v ssa.Value) ssa.Value {
+	for {
+		cv, ok := v.(*ssa.Convert)
+		if !ok {
+			return v
+		}
+		v = cv.X
+	}
 }
